@@ -272,3 +272,109 @@ Print Assumptions C18_groestl256_concurrent_first_use_fair.
 Print Assumptions C18_groestl_no_sse2_all_calls_panic.
 Print Assumptions C18_groestl256_hasher_concurrent_first_use.
 Print Assumptions C18_groestl_examples.
+
+(** audit C18-F2, last sentence (work package audit-leftovers, Proofs/LeftoversConc.v).
+    READING: one modelled [Op] = ONE DISPATCHED CALL (one lazy-cell read), not one API call.  An API
+    call that consults several cells - Groestl's [finalize]: the tf512 cell, then the of512 cell; a
+    [dispatch!] site: five feature probes, then the call - is SEVERAL CONSECUTIVE [Op]s of the same
+    thread, between which other threads' micro-steps may fall, exactly as in the code.  The theorems
+    above then give, group by group, the single-threaded result ([calls_run]: the API calls one after
+    the other). *)
+From CC Require Proofs.LeftoversConc.
+
+Theorem C18_multi_cell_calls_sequential :
+  forall (V St Op Out : Type) (cpu : nat -> bool) (choose : (nat -> bool) -> nat -> V)
+         (cell_of : Op -> nat) (exec : V -> Op -> St -> St * Out)
+         (g0 : gstate V St Op Out) (sched : list nat),
+    initial V St Op Out g0 ->
+    forall i t0 tf (groups : list (list Op)),
+      nth_error (threads V St Op Out g0) i = Some t0 ->
+      t_prog V Op Out t0 = concat groups ->
+      nth_error (threads V St Op Out (run V St Op Out cpu choose cell_of exec sched g0)) i = Some tf ->
+      t_prog V Op Out tf = [] ->
+      t_outs V Op Out tf
+      = concat (snd (LeftoversConc.calls_run V St Op Out cpu choose cell_of exec
+                       (tbl V St Op Out g0 (t_inst V Op Out t0)) groups))
+      /\ tbl V St Op Out (run V St Op Out cpu choose cell_of exec sched g0) (t_inst V Op Out t0)
+         = fst (LeftoversConc.calls_run V St Op Out cpu choose cell_of exec
+                  (tbl V St Op Out g0 (t_inst V Op Out t0)) groups).
+Proof. exact LeftoversConc.multi_cell_calls_sequential. Qed.
+
+(** [calls_run] is: run each group with [seq_run] from the state the previous group left *)
+Theorem C18_calls_run_unfold :
+  forall (V St Op Out : Type) (cpu : nat -> bool) (choose : (nat -> bool) -> nat -> V)
+         (cell_of : Op -> nat) (exec : V -> Op -> St -> St * Out) s g r,
+    LeftoversConc.calls_run V St Op Out cpu choose cell_of exec s [] = (s, [])
+    /\ LeftoversConc.calls_run V St Op Out cpu choose cell_of exec s (g :: r)
+       = (fst (LeftoversConc.calls_run V St Op Out cpu choose cell_of exec
+                 (fst (seq_run V St Op Out cpu choose cell_of exec s g)) r),
+          snd (seq_run V St Op Out cpu choose cell_of exec s g)
+          :: snd (LeftoversConc.calls_run V St Op Out cpu choose cell_of exec
+                    (fst (seq_run V St Op Out cpu choose cell_of exec s g)) r)).
+Proof. exact LeftoversConc.calls_run_unfold. Qed.
+
+(** Groestl: [finalize] = the group [CTf512 blk; COf512], cells 0 then 1; in every schedule the finished
+    thread holds the state of the API calls run one after the other, whose cut is the specified digest *)
+Theorem C18_groestl_finalize_touches_two_cells :
+  forall blk, LeftoversConc.cells_touched gcall g_cell_of [CTf512 blk; COf512] = [0; 1].
+Proof. exact LeftoversConc.GroestlTwoCells.finalize_touches_two_cells. Qed.
+
+Theorem C18_groestl_finalize_two_cells :
+  forall (t : gtgt) (cpu : nat -> bool) (g0 : gstate (gresult gmodule) X gcall gout) (sched : list nat),
+    initial (gresult gmodule) X gcall gout g0 ->
+    (cpu 0 || cpu 1 || cpu 2 = true)%nat ->
+    forall i t0 tf msg,
+      nth_error (threads (gresult gmodule) X gcall gout g0) i = Some t0 ->
+      t_prog (gresult gmodule) gcall gout t0 = concat (LeftoversConc.GroestlTwoCells.groups512 256 msg) ->
+      fits 64 msg ->
+      nth_error (threads (gresult gmodule) X gcall gout
+                   (run (gresult gmodule) X gcall gout cpu (g_choose t) g_cell_of (g_exec sbox_fast) sched g0)) i = Some tf ->
+      t_prog (gresult gmodule) gcall gout tf = [] ->
+      let final := tbl (gresult gmodule) X gcall gout
+                     (run (gresult gmodule) X gcall gout cpu (g_choose t) g_cell_of (g_exec sbox_fast) sched g0)
+                     (t_inst (gresult gmodule) gcall gout t0) in
+      final = fst (LeftoversConc.calls_run (gresult gmodule) X gcall gout cpu (g_choose t) g_cell_of (g_exec sbox_fast)
+                     (tbl (gresult gmodule) X gcall gout g0 (t_inst (gresult gmodule) gcall gout t0))
+                     (LeftoversConc.GroestlTwoCells.groups512 256 msg))
+      /\ t_outs (gresult gmodule) gcall gout tf
+         = concat (snd (LeftoversConc.calls_run (gresult gmodule) X gcall gout cpu (g_choose t) g_cell_of (g_exec sbox_fast)
+                          (tbl (gresult gmodule) X gcall gout g0 (t_inst (gresult gmodule) gcall gout t0))
+                          (LeftoversConc.GroestlTwoCells.groups512 256 msg)))
+      /\ out256 (concat final) = Spec.Groestl.groestl256 msg.
+Proof. exact LeftoversConc.GroestlTwoCells.groestl_finalize_two_cells. Qed.
+
+Theorem C18_groestl_groups_are_the_calls :
+  forall bits msg, concat (LeftoversConc.GroestlTwoCells.groups512 bits msg) = calls512 bits msg.
+Proof. exact LeftoversConc.GroestlTwoCells.groups512_calls. Qed.
+
+(** a [dispatch!] site: five probes + the call = six consecutive [Op]s; every schedule gives the variant the
+    CPU oracle selects *)
+Theorem C18_dispatch_probes_any_schedule :
+  forall (cpu : nat -> bool)
+         (g0 : gstate bool (list bool * list nat) LeftoversConc.DispatchProbes.dop nat) (sched : list nat),
+    initial _ _ _ _ g0 ->
+    forall i t0 tf xs,
+      nth_error (threads _ _ _ _ g0) i = Some t0 ->
+      t_prog _ _ _ t0 = concat (map LeftoversConc.DispatchProbes.dispatch_call xs) ->
+      tbl _ _ _ _ g0 (t_inst _ _ _ t0) = ([], []) ->
+      nth_error (threads _ _ _ _ (run _ _ _ _ cpu LeftoversConc.DispatchProbes.d_choose
+                                     LeftoversConc.DispatchProbes.d_cell_of LeftoversConc.DispatchProbes.d_exec sched g0)) i = Some tf ->
+      t_prog _ _ _ tf = [] ->
+      tbl _ _ _ _ (run _ _ _ _ cpu LeftoversConc.DispatchProbes.d_choose
+                     LeftoversConc.DispatchProbes.d_cell_of LeftoversConc.DispatchProbes.d_exec sched g0) (t_inst _ _ _ t0)
+      = ([], map (fun x => x + 100 * LeftoversConc.DispatchProbes.variant [cpu 0; cpu 1; cpu 2; cpu 3; cpu 4]) xs).
+Proof. exact LeftoversConc.DispatchProbes.dispatch_calls_any_schedule. Qed.
+
+(** non-vacuity: the schedule in which thread 1 initialises the of512 cell while thread 0 is between the
+    two cell accesses of its [finalize] (both have computed the initialiser, neither has stored) *)
+Definition C18_two_cell_examples :=
+  (LeftoversConc.GroestlTwoCells.race_point, LeftoversConc.GroestlTwoCells.two_cell_schedule_sequential,
+   LeftoversConc.GroestlTwoCells.two_cell_by_theorem, LeftoversConc.DispatchProbes.dispatch_touches_six_cells).
+
+Print Assumptions C18_multi_cell_calls_sequential.
+Print Assumptions C18_calls_run_unfold.
+Print Assumptions C18_groestl_finalize_touches_two_cells.
+Print Assumptions C18_groestl_finalize_two_cells.
+Print Assumptions C18_groestl_groups_are_the_calls.
+Print Assumptions C18_dispatch_probes_any_schedule.
+Print Assumptions C18_two_cell_examples.
